@@ -109,7 +109,7 @@ fn recovery() -> Vec<HOp> {
 }
 
 fn units(_tier: &str) -> usize {
-    grid().len() + dup_cases().len() + NG.len() + dir_cases().len() + 6
+    grid().len() + dup_cases().len() + NG.len() + dir_cases().len() + 6 + NG.len() + 1
 }
 
 // ---------------------------------------------------------------- a rename that really fails
@@ -250,7 +250,122 @@ fn run_long_name(naming: NamingK, mode: ModeK) -> Result<usize, Fail> {
     Ok(reported)
 }
 
+/// Buffered mode (capacity 64 > record size), the first file the logger opens is a symlink to
+/// /dev/full: the records are accepted into the buffer, and what is in the buffer when the file
+/// is closed by a rotation cannot be written. W x 6, shutdown: that loss is reported, the
+/// records logged after the rotation (the next file is a regular one) are all there, and no
+/// empty file is closed.
+fn run_cur_full_buffered(naming: Option<NamingK>) -> Result<usize, Fail> {
+    let env = Env::new("c19b");
+    env.enter();
+    // (without rotation: two records, both are still in the buffer at shutdown)
+    let mut cfg = match naming {
+        Some(n) => Cfg::rot(CritK::Size(LIMIT), n, CleanK::Never),
+        None => Cfg::norot(),
+    };
+    cfg.mode = ModeK::BufDont(64);
+    let planted: std::sync::Arc<std::sync::Mutex<Option<std::path::PathBuf>>> = std::sync::Arc::new(std::sync::Mutex::new(None));
+    {
+        let planted = std::sync::Arc::clone(&planted);
+        let mut g = env.ctx.fs.lock().unwrap();
+        g.enabled = true;
+        g.on_hit = Some(Box::new(move |site, _occ, _idx, path| {
+            let mut p = planted.lock().unwrap();
+            if site == "open" && p.is_none() {
+                std::os::unix::fs::symlink("/dev/full", path).ok();
+                *p = Some(path.to_path_buf());
+            }
+        }));
+    }
+    let mut h = Hist::new(&env, cfg.clone());
+    for _ in 0..(if naming.is_some() { 6 } else { 2 }) {
+        if let Err(crate::fl::StepErr::Build(e)) = h.apply(HOp::W(20)) {
+            return Err(Fail {
+                clause: "run-error",
+                detail: format!("build: {e}"),
+            });
+        }
+    }
+    let lines = h.accepted.clone();
+    h.stop();
+    drop(h);
+    env.leave();
+    let reported = env.errlines().len();
+    if naming.is_none() {
+        return if reported == 0 {
+            Err(Fail {
+                clause: "not-reported",
+                detail: "two records were accepted into the buffer of a file on a full device; shutdown() could not write them, but nothing was written to the error channel".into(),
+            })
+        } else {
+            Ok(reported)
+        };
+    }
+    // what the files hold (the planted symlink reads as empty)
+    let mut held: Vec<String> = Vec::new();
+    let mut empty_regular = Vec::new();
+    for n in family::list_names(&env.dir) {
+        let p = env.dir.join(&n);
+        if std::fs::symlink_metadata(&p).map(|m| m.file_type().is_symlink()).unwrap_or(false) {
+            continue;
+        }
+        let b = std::fs::read(&p).unwrap_or_default();
+        if b.is_empty() {
+            empty_regular.push(n.clone());
+        }
+        held.extend(family::split_lines(&b, "\n").0);
+    }
+    let texts: Vec<String> = lines.iter().map(|l| String::from_utf8_lossy(&l[..l.len() - 1]).to_string()).collect();
+    let missing: Vec<&String> = texts.iter().filter(|t| !held.contains(t)).collect();
+    if !missing.is_empty() && reported == 0 {
+        return Err(Fail {
+            clause: "not-reported",
+            detail: format!("records {missing:?} were accepted into the buffer of a file on a full device and are in no file, but nothing was written to the error channel"),
+        });
+    }
+    if missing.len() > 1 {
+        return Err(Fail {
+            clause: "unrelated-record-lost",
+            detail: format!("only the record that was buffered for the file on the full device can be missing (the file is closed by the next record's rotation, the next file is a regular one), but {missing:?} are missing; files {:?}", family::list_names(&env.dir)),
+        });
+    }
+    if empty_regular.len() > 1 || held.last() != texts.last() {
+        return Err(Fail {
+            clause: "no-recovery",
+            detail: format!("empty files {empty_regular:?}; the files hold {held:?}"),
+        });
+    }
+    Ok(reported)
+}
+
 fn run_rename_dir_unit(idx: usize, unit: usize, out: &mut Out) {
+    if idx >= 6 {
+        let naming = NG.get(idx - 6).copied();
+        let case = json!({"unit": unit, "rename_dir": idx});
+        let cause = format!("current-file-on-full-device/buffered/{}", naming.map_or("no-rotation", |n| n.short()));
+        let mut vs = Vec::new();
+        for _ in 0..2 {
+            out.evaluations += 1;
+            out.transitions += 7;
+            match run_isolated(Duration::from_secs(30), move || run_cur_full_buffered(naming)) {
+                Ran::Done(Ok(n)) => {
+                    out.outcome(format!("current file full (buffered): error lines={}", n.min(9)));
+                    break;
+                }
+                Ran::Done(Err(f)) => vs.push(Violation::new(f.clause, cause.clone(), format!("naming {naming:?}, BufferDontFlush(64), size limit {LIMIT}, six records of 20 bytes, shutdown; the first file the logger opens is a symlink to /dev/full\n  {}", f.detail), case.clone())),
+                Ran::Panicked(m) => vs.push(Violation::new("panic", cause.clone(), m, case.clone())),
+                Ran::Hung => vs.push(Violation::new("hang", cause.clone(), String::new(), case.clone())),
+            }
+        }
+        out.state(&(unit, "cur_full_buffered"));
+        out.nontrivial(&(unit, "cur_full_buffered"));
+        if vs.len() == 2 && vs[0].key() == vs[1].key() {
+            out.violation(vs.remove(0));
+        } else if !vs.is_empty() {
+            out.violation(Violation::new("nondeterministic", "replay-diverged", vs[0].detail.clone(), case));
+        }
+        return;
+    }
     if idx >= 2 {
         let naming = [NamingK::Timestamps, NamingK::CustomCur][(idx - 2) / 2];
         let mode = [ModeK::Direct, ModeK::BufDont(16)][idx % 2];
